@@ -23,7 +23,7 @@ def digests(ids, n, vseed=12345):
         for ph in check.phases("quick"):
             for idx in range(n):
                 seed = mix(vseed, check.ID, ph["name"], idx)
-                sim, v = core.execute(check, dict(ph.get("params", {}), _idx=idx), seed=seed)
+                sim, v = core.execute(check, dict(ph.get("params", {}), _idx=idx, _selftest=1), seed=seed)
                 out["%s/%s/%d" % (cid, ph["name"], idx)] = [sim.digest(), v.sig if v else None]
     return out
 
